@@ -11,7 +11,8 @@ LEVEL = "exploration"
 RULE = ("roundtrip: for a generated subset of ALL registered options a source in {command line, parent config file, both} and a "
         "legal value (floats/doubles arbitrary representable values, 1-5 bunch currents incl. zeros, alpha0 vs synchrotron "
         "frequency in all presence combinations, legacy aliases in the parent file); A.parse(argv); A.save(cfg); "
-        "B.parse(--config=cfg); every getter of A must equal the getter of B.  non-trivial = >= 3 options non-default and one of "
+        "B.parse(--config=cfg); every getter of A must equal the getter of B, and the same again for the .cfg that B saves (second "
+        "generation).  non-trivial = >= 3 options non-default and one of "
         "{>= 2 bunch currents, f_s != 0, option only in the parent file, float needing > 6 digits}.  cli: the real program's "
         ".cfg fed back reproduces the final phase space bit for bit")
 ASSUMPTIONS = ["run_anyway is deliberately not written to the .cfg (it cannot influence results once 'output' is in the file) and is not compared",
@@ -36,7 +37,7 @@ def run_roundtrip(case):
     s = S()
     d = os.environ.get("VERIF_SCRATCH", ".")
     os.chdir(d)
-    for f in ("parent.cfg", "saved.cfg", "default.cfg"):
+    for f in ("parent.cfg", "saved.cfg", "saved2.cfg", "default.cfg"):
         if os.path.exists(f):
             os.remove(f)
     args = O.cli_args(case["cli"])
@@ -56,8 +57,15 @@ def run_roundtrip(case):
     except shimmod.ShimError as e:
         txt = open("saved.cfg").read()
         return Outcome(False, True, ["reload_fails"], "saved configuration cannot be parsed back: %s\n%s" % (e, txt[:600]), sig="c13:reload")
+    # second generation: B (= inovesa --config saved.cfg) is itself an invocation; the .cfg it writes must reproduce it too
+    s.opts_save(hB, "saved2.cfg")
+    try:
+        hC, runC, gC = parse(["--config=saved2.cfg"])
+    except shimmod.ShimError as e:
+        return Outcome(False, True, ["reload_fails"], "the configuration saved by a run from a saved configuration cannot be parsed back: %s\n%s" % (e, open("saved2.cfg").read()[:600]), sig="c13:reload2")
     s.opts_free(hA)
     s.opts_free(hB)
+    s.opts_free(hC)
     allnames = set(case["cli"]) | set(case["file"])
     canon = {O.ALIASES.get(k, k) for k in allnames}
     cls = ["ncli%d" % min(len(case["cli"]), 3), "nfile%d" % min(len(case["file"]), 3)]
@@ -84,6 +92,14 @@ def run_roundtrip(case):
             line = [l for l in txt.splitlines() if l.split("=")[0] in [n for n, (t, g) in O.OPTS.items() if g == k]]
             return Outcome(False, nontriv, cls, "option behind getter %s: original invocation gives %r, the saved .cfg gives %r (cfg line: %s; cli=%s file=%s)" %
                            (k, a, b, line, case["cli"], case["file"]), sig="c13:getter:%s" % k)
+    for k in sorted(gB):
+        if k in EXCLUDE or (k == "Alpha0" and gB["SyncFreq"] != 0):
+            continue
+        a, b = gB[k], gC[k]
+        same = (a == b) or (isinstance(a, float) and isinstance(b, float) and np.isnan(a) and np.isnan(b))
+        if not same:
+            return Outcome(False, nontriv, cls, "second generation, option behind getter %s: the run from the saved .cfg gives %r, the .cfg it saves gives %r (cli=%s file=%s)\n%s" %
+                           (k, a, b, case["cli"], case["file"], open("saved2.cfg").read()[:800]), sig="c13:getter2:%s" % k)
     return Outcome(True, nontriv, cls)
 
 
@@ -168,6 +184,87 @@ def cli_cases(draw):
     return dict(opts=o, in_file=in_file)
 
 
+# ------------------------------------------------------------------ coverage-guided: configuration text byte for byte (libFuzzer)
+FUZZ_CORPUS = [b"GridSize=64\nalpha0=0.004\nBunchCurrent=0.001\nBunchCurrent=0.002\noutput=x.h5\n\x00--StepsPerTs=100\n--SynchrotronFrequency=8000\n",
+               b"SyncFreq=7000\nsteps=50\nRFVoltage=1e6\n", b"", b"# c\nverbose=1\nInitialDistStep=-2\npadding=2.5\n\x00--rotations=0.5\n",
+               b"alpha0=0.0055\nSynchrotronFrequency=0\n\x00--BunchCurrent=0.5e-3\n", b"\x00--SynchrotronFrequency=0\n--alpha0=1e-3\n",
+               b"InitialDistFile=a.h5\nInitialDistStep=12345678901\ntracking=t.txt\nImpedance=z.dat\nUseCSR=false\nLinearRF=0\n"]
+
+
+def run_fuzzcfg(case):
+    import re
+    import subprocess
+    from vlib import cli
+    wd = cli.scratch("c13f")
+    exe = os.environ["VERIF_FUZZCFG"]
+    env = dict(os.environ, VERIF_FUZZ_DIR=wd, ASAN_OPTIONS="detect_leaks=0:abort_on_error=0", UBSAN_OPTIONS="print_stacktrace=1:halt_on_error=1")
+    if case.get("input_hex") is not None:
+        f = os.path.join(wd, "replay.bin")
+        open(f, "wb").write(bytes.fromhex(case["input_hex"]))
+        p = subprocess.run([exe, f], cwd=wd, env=env, stdout=subprocess.PIPE, stderr=subprocess.PIPE, timeout=120)
+        err = p.stderr.decode(errors="replace")
+        bad = p.returncode != 0 and ("ORACLE-VIOLATION" in err or "Sanitizer" in err or "runtime error" in err or "deadly signal" in err)
+        m = re.search(r"ORACLE-VIOLATION: ([^\n]*(?:\n[^\n]*){0,12})", err)
+        return Outcome(not bad, True, ["fuzz_replay"], "configuration text %r: %s" % (bytes.fromhex(case["input_hex"]), m.group(1) if m else err[-400:]),
+                       sig=_fuzz_sig(err))
+    corpus = os.path.join(wd, "corpus")
+    os.makedirs(corpus)
+    for i, sd in enumerate(FUZZ_CORPUS):
+        open(os.path.join(corpus, "s%d" % i), "wb").write(sd)
+    with open(os.path.join(wd, "dict.txt"), "w") as f:
+        for n in list(O.OPTS) + list(O.ALIASES) + list(O.IGNORED):
+            f.write('"%s="\n"--%s="\n' % (n, n))
+        for tok in ["\\x00", "\\x0a", "1e-3", "true", "false", "off", "nan", "inf", "0x10", "#", "[", "]", "-1", "4294967296", "/dev/null", "default.cfg", "=0\\x0a"]:
+            f.write('"%s"\n' % tok)
+    cmd = [exe, "-seed=%d" % case["seed"], "-runs=%d" % case["runs"], "-max_len=512", "-dict=" + os.path.join(wd, "dict.txt"),
+           "-artifact_prefix=" + wd + "/", "-print_final_stats=1", "-timeout=20", corpus]
+    try:
+        p = subprocess.run(cmd, cwd=wd, env=env, stdout=subprocess.PIPE, stderr=subprocess.PIPE, timeout=case.get("wall", 600))
+    except subprocess.TimeoutExpired:
+        return Outcome(True, False, ["fuzz_timeout"], discard=True)
+    err = p.stderr.decode(errors="replace")
+    arts = [f for f in os.listdir(wd) if f.startswith("crash-") or f.startswith("leak-")]
+    m = re.search(r"stat::number_of_executed_units: (\d+)", err)
+    execs = int(m.group(1)) if m else 0
+    cov = re.findall(r"cov: (\d+)", err)
+    met = {"fuzz_execs:%d" % case["seed"]: execs, "fuzz_cov": int(cov[-1]) if cov else 0}
+    if arts:
+        data = open(os.path.join(wd, arts[0]), "rb").read()
+        case["input_hex"] = data.hex()
+        m = re.search(r"ORACLE-VIOLATION: ([^\n]*(?:\n[^\n]*){0,12})", err)
+        return Outcome(False, True, ["fuzz"], "libFuzzer found a configuration text (%r) that breaks the round trip: %s" % (data, m.group(1) if m else err[-600:]),
+                       sig=_fuzz_sig(err), metrics=met)
+    return Outcome(True, True, ["fuzz"], metrics=met)
+
+
+def _fuzz_sig(err):
+    import re
+    m = re.search(r"ORACLE-VIOLATION: (first|second) generation: getter (\w+)", err)
+    if m:
+        return "c13:fuzz:getter:%s" % m.group(2)
+    if "ORACLE-VIOLATION" in err and "rejected" in err:
+        return "c13:fuzz:reload"
+    m = re.search(r"(ERROR: AddressSanitizer: ([a-zA-Z0-9_-]+)|runtime error: ([^\n]{0,60}))", err)
+    if m:
+        return "c13:fuzz:san:%s" % (m.group(2) or m.group(3))
+    return "c13:fuzz:other"
+
+
+def fuzz_enum(tier):
+    runs = 40000 if tier == "quick" else 1500000
+    return [dict(seed=3000 + i, runs=runs, wall=400 if tier == "quick" else 2700) for i in range(16)]
+
+
+def finalize(cov, agg, tier):
+    g = agg.get("fuzzcfg")
+    if g is not None:
+        cov["fuzzcfg_total_executions"] = int(sum(v for k, v in g["metrics"].items() if k.startswith("fuzz_execs:")))
+        cov["fuzzcfg_edge_coverage"] = int(g["metrics"].get("fuzz_cov", 0))
+        cov["per_subcheck"]["fuzzcfg"]["max_observed"] = {"fuzz_cov": g["metrics"].get("fuzz_cov", 0)}
+
+
 def subs(tier):
-    return [Sub("roundtrip", assignments(), run_roundtrip, quick=12000, thorough=150000),
+    return [Sub("fuzzcfg", st.just({}), run_fuzzcfg, quick=1, thorough=1, needs=("fuzzcfg",), enum=fuzz_enum,
+                max_wall={"quick": 500, "thorough": 3000}),
+            Sub("roundtrip", assignments(), run_roundtrip, quick=12000, thorough=150000),
             Sub("cli", cli_cases(), run_cli, quick=144, thorough=400, needs=("rel", "h5x", "shim"), shrink_budget=16)]
